@@ -7,7 +7,7 @@ PROPERTY_ID = "C11"
 RULE = ("one-step programs argon2_at / argon2::<T>: full product type {d,i,id} x version {0x10,0x13} x t 1..=4 x p 1..=5 x m in {8p,8p+1,8p+3,8p+7,16p,33p}; "
         "m in {516p,520p,520p+5} for p in {1,2,3} (segment length > 128: address block refresh inside a segment), m = 2048 for p in {1,4}; every tag length "
         "4..=300 on the smallest memory of each type; password/key/AAD lengths {0,1,8,16,32} and salt lengths {8,9,16,32}; array-returning vs slice-filling "
-        "entry points for every instantiated T; parameter setters on their boundaries; oracle = python RFC 9106 model; distinct = program text")
+        "entry points for every instantiated T; parameter setters on their boundaries; every sequence of <= 3 (thorough 4) setter calls in any order (the parameter object caches derived sizes); oracle = python RFC 9106 model; distinct = program text")
 ASSUMPTIONS = ["python Argon2 model validated by the three RFC 9106 section 5 vectors and 42 OpenSSL 3.5 cross vectors (both versions, p=1, segment length 130, tags 4..128)",
                "memory above 2048 KiB is not explored", "salts shorter than 8 bytes and tags shorter than 4 bytes are outside the claim"]
 
@@ -16,6 +16,12 @@ ARR_SIZES = (4, 5, 16, 31, 32, 33, 63, 64, 65, 96, 97, 128, 300)
 
 def builds_needed(tier):
     return ["rel"]
+
+
+# Own corpus re-run on other builds of the crate (mc/core.py: extra builds). Every observation is compared with the same model.
+def extra_builds(tier):
+    return [("relchk", None), ("avx", None), ("avx2", None)]
+
 
 
 def bounds(tier):
@@ -58,7 +64,48 @@ def shards(tier):
         for ty in ("d", "i", "id"):
             sh.append(("shard_wide", ty))
     sh.append(("shard_setters", None))
+    sh += [("shard_builder", ty) for ty in ("d", "i", "id")]
     return sh
+
+
+def builder_sequences(depth):
+    """every sequence of <= depth setter calls over m in {24,32,50,96}, p in {1,2,3}, t in {1,2}, version in {0x10,0x13}, kept only while
+    the documented silent raise cannot trigger (m >= 8p after every call); the effective parameters are the last value given to each setter"""
+    letters = [("m", v) for v in (24, 32, 50, 96)] + [("p", v) for v in (1, 2, 3)] + [("t", v) for v in (1, 2)] + [("v", v) for v in (16, 19)]
+    out = []
+
+    def rec(seq, st):
+        if seq:
+            out.append((list(seq), dict(st)))
+        if len(seq) == depth:
+            return
+        for (k, v) in letters:
+            st2 = dict(st)
+            st2[k] = v
+            if st2["m"] < 8 * st2["p"]:
+                continue
+            rec(seq + [(k, v)], st2)
+
+    rec([], {"m": 32, "p": 1, "t": 1, "v": 19})
+    return out
+
+
+def shard_builder(ty, tier):
+    """the parameter object is a small state machine of its own (it caches the rounded block count): every order of setter calls
+    must give the tag of the final (m, p, t, version)"""
+    ck = core.Checker(PROPERTY_ID)
+    cases = []
+    cache = {}
+    for seq, st in builder_sequences(4 if tier == "thorough" else 3):
+        if not any(k == "m" for k, _ in seq) and not any(k == "p" for k, _ in seq) and len(seq) > 1:
+            continue
+        k = (st["v"], st["t"], st["p"], st["m"])
+        if k not in cache:
+            cache[k] = obs_of(argon2.argon2(ty, st["v"], st["t"], st["p"], st["m"], PW, SALT, b"", b"", 16))
+        cases.append((["argon2_built %s %s %s %s h: h: 16" % (ty, ",".join("%s%d" % kv for kv in seq), H(PW), H(SALT))], [cache[k]], None))
+    ck.run(cases)
+    ck.stats.states = len(cases)
+    return ck.stats
 
 
 PW, SALT, KEY, AAD = pat(5, 0, 16), pat(6, 0, 16), pat(7, 0, 8), pat(5, 40, 12)
